@@ -93,6 +93,7 @@ class RemotePickler36(pickle.Pickler):
         from ..remote_pickle import SupportRemoteGetState
         super().__init__(*args, **kwargs)
         self._remote = remote
-        self.dispatch_table = dyn_dispatch_table(self.remote_reduce) if self._remote else {}
+        # a private dispatch_table replaces copyreg.dispatch_table for this pickler - start from its content
+        self.dispatch_table = dyn_dispatch_table(self.remote_reduce, copyreg.dispatch_table) if self._remote else dict(copyreg.dispatch_table)
         for cls in SupportRemoteGetState.supported_classes:
             self.dispatch_table[cls] = self.remote_reduce
